@@ -29,20 +29,18 @@ func configs(thorough bool) []Config {
 	var out []Config
 	ends := []string{"done", "loop", "assert", "errorlabel", "reserr-body", "reserr-precommit"}
 	mixes := []string{"plain", "closeerr", "incmap", "hashmap", "nested"}
+	maxStops := 3
+	if thorough {
+		maxStops = 4
+	}
 	for _, end := range ends {
 		for _, mix := range mixes {
-			for stops := 0; stops <= 3; stops++ {
+			for stops := 0; stops <= maxStops; stops++ {
 				if end == "loop" && stops == 0 {
 					continue // never ends
 				}
-				// quick: the failing endings are run on every mix with up to 2 Stop callers, and with 3 on the plain mix
-				if !thorough && stops == 3 && mix != "plain" && end != "done" && end != "loop" {
-					continue
-				}
 				out = append(out, Config{End: end, Mix: mix, Stops: stops})
-				if mix == "plain" || mix == "incmap" || thorough {
-					out = append(out, Config{End: end, Mix: mix, Stops: stops, SecondRun: true})
-				}
+				out = append(out, Config{End: end, Mix: mix, Stops: stops, SecondRun: true})
 			}
 		}
 	}
@@ -614,7 +612,7 @@ func TestCheck(t *testing.T) {
 			"strict_confirmations":       confirm,
 			"leaked_bubbles":             leakedB + bubble.Leaked(),
 			"shard_workers":              env.Workers,
-			"bounds":                     "endings {Done, Stop only, assertion, Error label, resource error in body, resource error in PreCommit} x resource mixes {2 plain, plain with failing Close, IncMap with realised elements, HashMap with 3 configured elements, nested-archetype resource with an instrumented inner resource} x 0-3 Stop callers started at every scheduling point (before Run, at each section start, inside each Close, after Run, around a second Run) x with/without a second Run call (quick: second Run on the plain and IncMap mixes, 3 Stop callers on failing endings only with the plain mix); every interleaving, no preemption bound",
+			"bounds":                     "endings {Done, Stop only, assertion, Error label, resource error in body, resource error in PreCommit} x resource mixes {2 plain, plain with failing Close, IncMap with realised elements, HashMap with 3 configured elements, nested-archetype resource with an instrumented inner resource} x 0-3 (thorough 0-4) Stop callers started at every scheduling point (before Run, at each section start, inside each Close, after Run, around a second Run) x with/without a second Run call, plus Stop callers on a context whose Run is never called; every interleaving, no preemption bound",
 		}
 		if len(samples) == 0 {
 			cov["samples"] = []any{"(no sample of the selected shapes)"}
